@@ -785,4 +785,18 @@ example : ∃ u, build (basePathOf [[97, 112, 105]] ++ GoURLParse.withQuery [120
   · rw [h2]; decide
   · rw [h3]; decide
 
+/-- `client.New` roots the base path and changes nothing else: a rooted base path (with whatever query
+it carries) is held as given, and the result is always rooted. -/
+theorem clientNew_base_path (b : Bytes) :
+    (clientNewBasePath b).head? = some 47 ∧
+    (b.head? = some 47 → clientNewBasePath b = b) ∧
+    (b.head? ≠ some 47 → clientNewBasePath b = 47 :: b) ∧
+    clientNewBasePath (clientNewBasePath b) = clientNewBasePath b := by
+  unfold clientNewBasePath
+  by_cases h : b.head? = some 47 <;> simp [h]
+
+-- "api?x=//" is held as "/api?x=//" (the query text is not cleaned), "/a//b/" as given
+example : clientNewBasePath [97, 112, 105, 63, 120, 61, 47, 47] = [47, 97, 112, 105, 63, 120, 61, 47, 47] ∧
+    clientNewBasePath [47, 97, 47, 47, 98, 47] = [47, 97, 47, 47, 98, 47] := by decide
+
 end RtVerif.C10
